@@ -115,3 +115,216 @@ Theorem C08_class_id_query_roundtrip : forall as_css b c classes ids exc,
   hidden_class_id_selectors c classes ids exc.
 Proof. exact class_id_query_roundtrip. Qed.
 Print Assumptions C08_class_id_query_roundtrip.
+
+(* ------------------------------------------------------------------ QUERY level (C08_Query_Model /
+   C08_Query_Proofs): the network query (the whole BlockerResult of Engine_Model.engine_check, for
+   the ordinary and the subset query), the CSP query and the generichide query give the same answer
+   on the reloaded engine as on the original, for every per-rule matcher, probe list, URL, resource
+   store and tag set installed after loading; the one exception is the rewritten URL, which is
+   None after a reload whenever the original held removeparam rules (known finding F8, stated as
+   part of the theorem and witnessed by C08_network_query_rewritten_refuted).  net_blocker
+   translates the wire-side state into the query-side state (Net_Model); the queries are shown to
+   read buckets only. *)
+From Adb Require Import C08_Query_Model C08_Query_Proofs.
+From Adb Require Net_Model Engine_Model C13_Model C14_Model C15_Model.
+
+(* ---- the query functions read buckets (and the enabled tags) only ---- *)
+Theorem C08_check_all_agree : forall matches pr m1 m2 tags, maps_agree m1 m2 ->
+  Net_Model.check_all matches m1 pr tags = Net_Model.check_all matches m2 pr tags.
+Proof. exact check_all_agree. Qed.
+Print Assumptions C08_check_all_agree.
+
+(* the `match m with [] => []` case of check_all is not special: a map of empty buckets answers
+   like the empty map *)
+Theorem C08_check_all_empty_buckets : forall matches pr m tags, (forall k, Net_Model.bucket m k = []) ->
+  Net_Model.check_all matches m pr tags = Net_Model.check_all matches [] pr tags.
+Proof. exact check_all_empty_buckets. Qed.
+Print Assumptions C08_check_all_empty_buckets.
+
+Theorem C08_blocker_check_p_agree : forall matches pr mr fc a b, net_agree a b ->
+  Net_Model.blocker_check_p matches pr mr fc a = Net_Model.blocker_check_p matches pr mr fc b.
+Proof. exact blocker_check_p_agree. Qed.
+Print Assumptions C08_blocker_check_p_agree.
+
+Theorem C08_engine_check_agree : forall matches pr supported url st mr fc a b, net_agree_full a b ->
+  Engine_Model.engine_check matches pr supported url st mr fc a =
+  Engine_Model.engine_check matches pr supported url st mr fc b.
+Proof. exact engine_check_agree. Qed.
+Print Assumptions C08_engine_check_agree.
+
+Theorem C08_engine_check_agree_but_rewritten : forall matches pr supported url st mr fc a b, net_agree a b ->
+  same_but_rewritten (Engine_Model.engine_check matches pr supported url st mr fc a)
+                     (Engine_Model.engine_check matches pr supported url st mr fc b).
+Proof. exact engine_check_agree_but_rewritten. Qed.
+Print Assumptions C08_engine_check_agree_but_rewritten.
+
+Theorem C08_engine_csp_agree : forall matches pr rtype a b, net_agree a b ->
+  Engine_Model.engine_csp matches pr rtype a = Engine_Model.engine_csp matches pr rtype b.
+Proof. exact engine_csp_agree. Qed.
+Print Assumptions C08_engine_csp_agree.
+
+Theorem C08_generic_hide_agree : forall matches pr a b, net_agree a b ->
+  Net_Model.generic_hide_hit matches pr a = Net_Model.generic_hide_hit matches pr b.
+Proof. exact generic_hide_agree. Qed.
+Print Assumptions C08_generic_hide_agree.
+
+(* an empty removeparam list never rewrites *)
+Theorem C08_engine_check_no_rewrite : forall matches pr supported url st mr fc a,
+  Net_Model.b_removeparam a = [] ->
+  Engine_Model.r_rewritten (Engine_Model.engine_check matches pr supported url st mr fc a) = None.
+Proof. exact engine_check_no_rewrite. Qed.
+Print Assumptions C08_engine_check_no_rewrite.
+
+(* ---- the translation: wire-side reads = query-side buckets ---- *)
+Theorem C08_bucket_net_map : forall m k, Net_Model.bucket (net_map m) k = map net_rule (getn k m).
+Proof. exact bucket_net_map. Qed.
+Print Assumptions C08_bucket_net_map.
+
+(* blocker_equiv (the conclusion of C08_wire_roundtrip_state) + distinct keys (the premises of
+   C08_blocker_equiv_reads) => the translated blockers agree bucket-wise, all eight lists + tags *)
+Theorem C08_blocker_equiv_net_agree : forall a b, blocker_equiv a b ->
+  NoDup (map fst (b_csp a)) -> NoDup (map fst (b_exceptions a)) -> NoDup (map fst (b_importants a)) ->
+  NoDup (map fst (b_redirects a)) -> NoDup (map fst (b_removeparam a)) -> NoDup (map fst (b_filters_tagged a)) ->
+  NoDup (map fst (b_filters a)) -> NoDup (map fst (b_generic_hide a)) ->
+  net_agree_full (net_blocker a) (net_blocker b).
+Proof. exact blocker_equiv_net_agree. Qed.
+Print Assumptions C08_blocker_equiv_net_agree.
+
+(* hence equivalent states answer the three queries alike (query-level twin of
+   C08_class_id_query_equiv) *)
+Theorem C08_network_query_equiv : forall a b, blocker_equiv a b ->
+  NoDup (map fst (b_csp a)) -> NoDup (map fst (b_exceptions a)) -> NoDup (map fst (b_importants a)) ->
+  NoDup (map fst (b_redirects a)) -> NoDup (map fst (b_removeparam a)) -> NoDup (map fst (b_filters_tagged a)) ->
+  NoDup (map fst (b_filters a)) -> NoDup (map fst (b_generic_hide a)) ->
+  forall matches pr supported url rtype st mr fc,
+    Engine_Model.engine_check matches pr supported url st mr fc (net_blocker a) =
+    Engine_Model.engine_check matches pr supported url st mr fc (net_blocker b) /\
+    Engine_Model.engine_csp matches pr rtype (net_blocker a) =
+    Engine_Model.engine_csp matches pr rtype (net_blocker b) /\
+    Net_Model.generic_hide_hit matches pr (net_blocker a) = Net_Model.generic_hide_hit matches pr (net_blocker b).
+Proof. exact network_query_equiv. Qed.
+Print Assumptions C08_network_query_equiv.
+
+(* the two models select the enabled tagged rules alike *)
+Theorem C08_tagged_active_net : forall tags l,
+  map net_rule (filter (tag_enabled tags) l) = Net_Model.tagged_active tags (map net_rule l).
+Proof. exact tagged_active_net. Qed.
+Print Assumptions C08_tagged_active_net.
+
+(* ---- the matcher: nothing a matcher may read is lost by net_rule ---- *)
+Theorem C08_wire_matcher_transport : forall wm r, ignores_raw wm -> unions_canonical r ->
+  net_matcher wm (net_rule r) = wm r.
+Proof. exact wire_matcher_transport. Qed.
+Print Assumptions C08_wire_matcher_transport.
+
+Theorem C08_net_rule_fields : forall r r', net_rule r = net_rule r' ->
+  r_id r = r_id r' /\ r_mask r = r_mask r' /\ r_filter r = r_filter r' /\ r_hostname r = r_hostname r' /\
+  r_opt_domains r = r_opt_domains r' /\ r_opt_not_domains r = r_opt_not_domains r' /\
+  r_modifier r = r_modifier r' /\ r_tag r = r_tag r'.
+Proof. exact net_rule_fields. Qed.
+Print Assumptions C08_net_rule_fields.
+
+Theorem C08_net_rule_lift : forall f, net_rule (lift_rule f) = f.
+Proof. exact net_rule_lift. Qed.
+Print Assumptions C08_net_rule_lift.
+
+(* ---- the round trip, state level restated without the removeparam / cosmetic hypotheses ---- *)
+Theorem C08_roundtrip_reads_same : forall as_css build_list l e tags,
+  rules_ok (e_blocker e) -> keys_distinct (e_blocker e) ->
+  let w := to_wire as_css (e_blocker e) (e_cosmetic e) in
+  let e' := engine_use_tags build_list tags (install build_list l w) in
+  reads_same (e_blocker e') (e_blocker (engine_use_tags build_list tags e)) /\
+  b_removeparam (e_blocker e') = [].
+Proof. exact roundtrip_reads_same. Qed.
+Print Assumptions C08_roundtrip_reads_same.
+
+(* ---- the round trip at query level ---- *)
+(* network_query_roundtrip: matched / important / exception / filter / redirect equal; the reloaded
+   engine reports no rewritten URL (F8); the whole result equal under no_removeparam *)
+Theorem C08_network_query_roundtrip : forall as_css build_list l e tags,
+  rules_ok (e_blocker e) -> keys_distinct (e_blocker e) ->
+  let w := to_wire as_css (e_blocker e) (e_cosmetic e) in
+  let e' := engine_use_tags build_list tags (install build_list l w) in
+  let e0 := engine_use_tags build_list tags e in
+  forall matches pr supported url st mr fc,
+  let r' := Engine_Model.engine_check matches pr supported url st mr fc (net_blocker (e_blocker e')) in
+  let r := Engine_Model.engine_check matches pr supported url st mr fc (net_blocker (e_blocker e0)) in
+  (Engine_Model.r_matched r' = Engine_Model.r_matched r /\
+   Engine_Model.r_important r' = Engine_Model.r_important r /\
+   Engine_Model.r_exception r' = Engine_Model.r_exception r /\
+   Engine_Model.r_filter r' = Engine_Model.r_filter r /\
+   Engine_Model.r_redirect r' = Engine_Model.r_redirect r) /\
+  Engine_Model.r_rewritten r' = None /\
+  (no_removeparam (e_blocker e) -> r' = r).
+Proof. exact network_query_roundtrip. Qed.
+Print Assumptions C08_network_query_roundtrip.
+
+Theorem C08_verdict_roundtrip : forall as_css build_list l e tags,
+  rules_ok (e_blocker e) -> keys_distinct (e_blocker e) ->
+  let w := to_wire as_css (e_blocker e) (e_cosmetic e) in
+  let e' := engine_use_tags build_list tags (install build_list l w) in
+  let e0 := engine_use_tags build_list tags e in
+  forall matches pr mr fc,
+  Net_Model.blocker_check_p matches pr mr fc (net_blocker (e_blocker e')) =
+  Net_Model.blocker_check_p matches pr mr fc (net_blocker (e_blocker e0)).
+Proof. exact verdict_roundtrip. Qed.
+Print Assumptions C08_verdict_roundtrip.
+
+(* csp_query_roundtrip: equality of the directive lists (implies C15_Model.same_policy) *)
+Theorem C08_csp_query_roundtrip : forall as_css build_list l e tags,
+  rules_ok (e_blocker e) -> keys_distinct (e_blocker e) ->
+  let w := to_wire as_css (e_blocker e) (e_cosmetic e) in
+  let e' := engine_use_tags build_list tags (install build_list l w) in
+  let e0 := engine_use_tags build_list tags e in
+  forall matches pr rtype,
+  Engine_Model.engine_csp matches pr rtype (net_blocker (e_blocker e')) =
+  Engine_Model.engine_csp matches pr rtype (net_blocker (e_blocker e0)).
+Proof. exact csp_query_roundtrip. Qed.
+Print Assumptions C08_csp_query_roundtrip.
+
+Theorem C08_generic_hide_roundtrip : forall as_css build_list l e tags,
+  rules_ok (e_blocker e) -> keys_distinct (e_blocker e) ->
+  let w := to_wire as_css (e_blocker e) (e_cosmetic e) in
+  let e' := engine_use_tags build_list tags (install build_list l w) in
+  let e0 := engine_use_tags build_list tags e in
+  forall matches pr,
+  Net_Model.generic_hide_hit matches pr (net_blocker (e_blocker e')) =
+  Net_Model.generic_hide_hit matches pr (net_blocker (e_blocker e0)).
+Proof. exact generic_hide_roundtrip. Qed.
+Print Assumptions C08_generic_hide_roundtrip.
+
+(* keys_distinct follows from C09's blocker_wf *)
+Theorem C08_keys_distinct_of_wf : forall b, blocker_wf b -> keys_distinct b.
+Proof. exact keys_distinct_of_wf. Qed.
+Print Assumptions C08_keys_distinct_of_wf.
+
+(* F8 at query level (known finding): with a removeparam rule the original engine rewrites the
+   URL, the reloaded engine does not; all other premises hold *)
+Theorem C08_network_query_rewritten_refuted : exists e l tags matches pr url st mr fc,
+  rules_ok (e_blocker e) /\ keys_distinct (e_blocker e) /\ ~ no_removeparam (e_blocker e) /\
+  let bl := fun (_ : list rule) (_ : bool) => @nil (N * list rule) in
+  let e' := engine_use_tags bl tags (install bl l (to_wire ex_css (e_blocker e) (e_cosmetic e))) in
+  Engine_Model.r_rewritten (Engine_Model.engine_check matches pr true url st mr fc
+     (net_blocker (e_blocker (engine_use_tags bl tags e)))) = Some (bs "https://x.com/a?b=2") /\
+  Engine_Model.r_rewritten (Engine_Model.engine_check matches pr true url st mr fc
+     (net_blocker (e_blocker e'))) = None.
+Proof. exact network_query_rewritten_refuted. Qed.
+Print Assumptions C08_network_query_rewritten_refuted.
+
+(* the premises are satisfiable on an engine with rules in five lists and a tagged rule, and the
+   answers compared are not trivial *)
+Theorem C08_query_roundtrip_example :
+  rules_ok (e_blocker exq_engine) /\ keys_distinct (e_blocker exq_engine) /\ no_removeparam (e_blocker exq_engine) /\
+  let b' := net_blocker (e_blocker (exq_reloaded [bs "t1"])) in
+  let b := net_blocker (e_blocker (engine_use_tags exq_build [bs "t1"] exq_engine)) in
+  let r' := Engine_Model.engine_check exq_matches [9; 7; 5; 0] true exq_url exq_store false false b' in
+  let r := Engine_Model.engine_check exq_matches [9; 7; 5; 0] true exq_url exq_store false false b in
+  r' = r /\
+  Engine_Model.r_filter r = true /\ Engine_Model.r_exception r = true /\ Engine_Model.r_matched r = false /\
+  Engine_Model.r_redirect r <> None /\
+  Net_Model.ids_of (Net_Model.check_all exq_matches (Net_Model.b_tagged b') [9] [bs "t1"]) = [8] /\
+  Engine_Model.engine_csp exq_matches [9; 7; 5; 0] RT_Document b' = Some [bs "img-src *"] /\
+  Engine_Model.engine_csp exq_matches [9; 7; 5; 0] RT_Document b = Some [bs "img-src *"] /\
+  Net_Model.generic_hide_hit exq_matches [9; 7; 5; 0] b' = true.
+Proof. exact query_roundtrip_example. Qed.
+Print Assumptions C08_query_roundtrip_example.
